@@ -19,27 +19,83 @@ fn argon2_params(ty: &str, ver: &str, t: &str, m: &str, p: &str) -> Result<argon
     Ok(prm)
 }
 
+/// builder history: setters applied in the given order, any number of times ("p=3", "m=47", "t=2", "v=0x13")
+fn argon2_params_seq(ty: &str, setters: &[&str]) -> Result<argon2::Params, String> {
+    let mut prm = match ty {
+        "d" => argon2::Params::argon2d(),
+        "i" => argon2::Params::argon2i(),
+        "id" => argon2::Params::argon2id(),
+        _ => panic!("argon2 type"),
+    };
+    let e = |x: argon2::InvalidParam| format!("ERR:{:?}", x);
+    for s in setters {
+        let (k, v) = s.split_at(2);
+        let v = u64p(v) as u32;
+        prm = match k {
+            "p=" => prm.parallelism(v).map_err(e)?,
+            "m=" => prm.memory_kb(v).map_err(e)?,
+            "t=" => prm.iterations(v).map_err(e)?,
+            "v=" => prm.version(v).map_err(e)?,
+            _ => panic!("bad setter {}", s),
+        };
+    }
+    Ok(prm)
+}
+
+fn argon2_tag(prm: &argon2::Params, tl: usize, pwd: &[u8], salt: &[u8], key: &[u8], aad: &[u8], api: &str) -> Vec<u8> {
+    if api == "at" {
+        let mut o = dirty(tl);
+        argon2::argon2_at(prm, pwd, salt, key, aad, &mut o);
+        o
+    } else {
+        macro_rules! f { ($n:literal) => { argon2::argon2::<$n>(prm, pwd, salt, key, aad).to_vec() }; }
+        match tl {
+            4 => f!(4),
+            16 => f!(16),
+            32 => f!(32),
+            33 => f!(33),
+            64 => f!(64),
+            65 => f!(65),
+            96 => f!(96),
+            128 => f!(128),
+            n => panic!("argon2 T {} not compiled", n),
+        }
+    }
+}
+
 pub fn run(op: &str, a: &[&str]) -> Vec<String> {
     match op {
-        // hkdf_extract <digest> <salt> <ikm> [prklen]
+        // argon2b <type> <T> <pwd> <salt> <key> <aad> <at|arr> <setter>... : Params built by an arbitrary setter history;
+        // the same Params value is then used twice (it is borrowed, so the second call must give the same tag)
+        "argon2b" => {
+            let prm = match argon2_params_seq(a[0], &a[7..]) {
+                Ok(p) => p,
+                Err(e) => return vec![e],
+            };
+            let (pwd, salt, key, aad) = (expand(a[2]), expand(a[3]), expand(a[4]), expand(a[5]));
+            let t1 = argon2_tag(&prm, usz(a[1]), &pwd, &salt, &key, &aad, a[6]);
+            let t2 = argon2_tag(&prm, usz(a[1]), &pwd, &salt, &key, &aad, "at");
+            vec![hex(&t1), hex(&t2)]
+        }
+        // hkdf_extract <digest> <salt> <ikm> [prklen|-] [soil/<data>[/fin]]
         "hkdf_extract" => {
             let (salt, ikm) = (expand(a[1]), expand(a[2]));
-            let n = if a.len() > 3 { usz(a[3]) } else { macs::new_digest(a[0]).output_bytes() };
-            let mut prk = vec![0u8; n];
-            macs::hkdf_extract_with(a[0], &salt, &ikm, &mut prk);
+            let n = if a.len() > 3 && a[3] != "-" { usz(a[3]) } else { macs::new_digest(a[0]).output_bytes() };
+            let mut prk = dirty(n);
+            macs::hkdf_extract_with(a[0], &salt, &ikm, &mut prk, &macs::parse_soil(a.get(4)));
             vec![hex(&prk)]
         }
-        // hkdf_expand <digest> <prk> <info> <L>
+        // hkdf_expand <digest> <prk> <info> <L> [soil/<data>[/fin]]
         "hkdf_expand" => {
             let (prk, info) = (expand(a[1]), expand(a[2]));
-            let mut okm = vec![0u8; usz(a[3])];
-            macs::hkdf_expand_with(a[0], &prk, &info, &mut okm);
+            let mut okm = dirty(usz(a[3]));
+            macs::hkdf_expand_with(a[0], &prk, &info, &mut okm, &macs::parse_soil(a.get(4)));
             vec![hex(&okm)]
         }
         // pbkdf2 <digest> <pw> <salt> <c> <dklen>
         "pbkdf2" => {
             let (pw, salt) = (expand(a[1]), expand(a[2]));
-            let mut o = vec![0u8; usz(a[4])];
+            let mut o = dirty(usz(a[4]));
             macs::pbkdf2_with(a[0], &pw, &salt, u64p(a[3]) as u32, &mut o);
             vec![hex(&o)]
         }
@@ -47,7 +103,7 @@ pub fn run(op: &str, a: &[&str]) -> Vec<String> {
         "scrypt" => {
             let (pw, salt) = (expand(a[0]), expand(a[1]));
             let prm = ScryptParams::new(u64p(a[2]) as u8, u64p(a[3]) as u32, u64p(a[4]) as u32);
-            let mut o = vec![0u8; usz(a[5])];
+            let mut o = dirty(usz(a[5]));
             scrypt(&pw, &salt, &prm, &mut o);
             vec![hex(&o)]
         }
@@ -68,7 +124,7 @@ pub fn run(op: &str, a: &[&str]) -> Vec<String> {
             let tl = usz(a[5]);
             let (pwd, salt, key, aad) = (expand(a[6]), expand(a[7]), expand(a[8]), expand(a[9]));
             if a[10] == "at" {
-                let mut o = vec![0u8; tl];
+                let mut o = dirty(tl);
                 argon2::argon2_at(&prm, &pwd, &salt, &key, &aad, &mut o);
                 vec![hex(&o)]
             } else {
